@@ -3,6 +3,9 @@ use std::{fs::OpenOptions, io::Write};
 use emmylua_code_analysis::load_configs_raw;
 use lsp_types::Command;
 use serde_json::Value;
+#[cfg(feature = "verif")]
+use crate::verif_locks::RwLock;
+#[cfg(not(feature = "verif"))]
 use tokio::sync::RwLock;
 
 use crate::context::{ServerContextSnapshot, WorkspaceManager};
